@@ -1319,6 +1319,227 @@ def rule_late_accept_removal(rep, crate, rid_name='M-C02g'):
             rep.viol(rid, 'late-removal:not-own-accept', 'the store is not conditioned on the state\'s own late accept', loc(fn, st['line']))
 
 
+def rule_priority_parse(rep, crate):
+    rid = rep.rule('M-C09d', 'explicit priority: Definition::named_attr stores into self.priority exactly the Ok value of str::parse::<usize>() of the attribute value (no narrower integer type, no conversion, no arithmetic): every n that fits usize replaces the default', floor=1)
+    fn = crate.fns.get('parser::definition::Definition::named_attr')
+    if not rep.anchor(rid, 'fn Definition::named_attr', fn is not None):
+        return
+    stores = []
+    for b, t in fn.calls():
+        if re.search(r'Option::<T>::(replace|insert|get_or_insert)$', fn.callee_name(t)) and desc(fn, t['args'][0]) == 'self.priority':
+            stores.append((t['args'][1], t['line']))
+    from mirlib import stores_to_field
+    for bi, si, st in stores_to_field(fn, 'priority'):
+        if st['rhs']['rv'] == 'use':
+            r = trace(fn, st['rhs']['a'])
+            if r[0] == 'agg' and r[2]['rhs']['kind'].get('variant') == 'Some':
+                stores.append((r[2]['rhs']['ops'][0], st['line']))
+            else:
+                stores.append((st['rhs']['a'], st['line']))
+        else:
+            stores.append((None, st['line']))
+    if not rep.anchor(rid, 'store into self.priority in named_attr', bool(stores)):
+        return
+    for op, line in stores:
+        d = desc(fn, op) if op is not None else '?'
+        rep.inst(rid, 'priority-store', detail=d)
+        ok = d == 'call:core::str::<impl str>::parse.0'
+        ty = None
+        if ok:
+            r = trace_place(fn, trace(fn, op)[1]) if trace(fn, op)[0] == 'place' else None
+            calls = [t for b, t in fn.calls() if re.search(r'<impl str>::parse$', fn.callee_name(t))]
+            tys = {fn.locals[t['dest']['local']] for t in calls if desc(fn, dict(op='copy', place=dict(local=t['dest']['local'], proj=[]))).startswith('call:core::str::<impl str>::parse')}
+            # the parse whose result feeds the store: identify through the slice
+            sl = fn.slice(op)
+            tys = {fn.locals[t['dest']['local']] for _b, t in sl.call_terms if re.search(r'<impl str>::parse$', fn.callee_name(t))}
+            ty = sorted(tys)
+            ok = tys == {'std::result::Result<usize, std::num::ParseIntError>'}
+            src = [desc(fn, t['args'][0]) for _b, t in sl.call_terms if re.search(r'<impl str>::parse$', fn.callee_name(t))]
+            if ok and not all('to_string' in x for x in src):
+                ok = False
+        if not ok:
+            rep.viol(rid, 'priority-store:value', 'self.priority receives %s (parse result type %s), expected the Ok value of tokens.to_string().parse::<usize>(): an explicit priority is truncated, converted or restricted to a narrower range' % (d[:160], ty), loc(fn, line))
+
+
+def rule_ignore_case_writers(rep, crate):
+    rid = rep.rule('M-C10d', 'who may write: IgnoreFlags::ignore_case is set to true by IgnoreFlags::parse_ident (on the "case" edge) and nowhere else in logos-codegen; no other function stores into it, borrows it mutably or builds an IgnoreFlags value except Default (so a parsed ignore(case) reaches Pattern::compile unchanged)', floor=1)
+    from mirlib import stores_to_field, mut_uses_of_field
+    writers = []
+    for name, fn in sorted(crate.fns.items()):
+        for bi, si, st in stores_to_field(fn, 'ignore_case'):
+            writers.append((name, fn, st, 'store'))
+        for bi, si, st in mut_uses_of_field(fn, 'ignore_case'):
+            writers.append((name, fn, st, '&mut'))
+        for bi, si, st in fn.stmts():
+            if bi in fn.live_blocks() and st['rhs']['rv'] == 'agg' and st['rhs']['kind'].get('adt', '').endswith('ignore_flags::IgnoreFlags'):
+                writers.append((name, fn, st, 'construct'))
+    rep.inst(rid, 'ignore_case-writers', detail=[(n, k) for n, _f, _s, k in writers])
+    seen_ident = False
+    for name, fn, st, kind in writers:
+        if re.search(r'ignore_flags::IgnoreFlags::parse_ident$', name) and kind == 'store':
+            v = desc(fn, st['rhs']['a']) if st['rhs']['rv'] == 'use' else '?'
+            if v != 'const:1':
+                rep.viol(rid, 'ignore_case:value', 'parse_ident stores %s into ignore_case, expected true' % v, loc(fn, st['line']))
+            else:
+                seen_ident = True
+            continue
+        if kind == 'construct' and re.search(r'ignore_flags::.*Default.*::default$|<.*IgnoreFlags as .*Default>::default$', name):
+            continue
+        rep.viol(rid, 'ignore_case:writer:%s:%s' % (short(name), kind), '%s performs a %s of IgnoreFlags::ignore_case: the flag parsed from ignore(case) can be altered before it reaches Pattern::compile' % (name, kind), loc(fn, st['line']))
+    if not seen_ident:
+        rep.viol(rid, 'ignore_case:never-set', 'no store of true into ignore_case in IgnoreFlags::parse_ident', '')
+
+
+class _MiniRe:
+    """Matcher for the tiny regex subset used by the subpattern name/reference constants: literals, escaped
+    characters, bracket classes with ranges, quantifiers + * ?.  Anything else -> ValueError (fail closed)."""
+    def __init__(self, src):
+        self.items = []
+        i = 0
+        while i < len(src):
+            c = src[i]
+            if c == '\\':
+                cs = {src[i + 1]}
+                if src[i + 1].isalnum():
+                    raise ValueError('escape \\%s' % src[i + 1])
+                i += 2
+            elif c == '[':
+                j = src.index(']', i + 1)
+                body = src[i + 1:j]
+                if body.startswith('^'):
+                    raise ValueError('negated class')
+                cs = set()
+                k = 0
+                while k < len(body):
+                    if body[k] == '\\':
+                        cs.add(body[k + 1]); k += 2
+                    elif k + 2 < len(body) and body[k + 1] == '-':
+                        cs.update(chr(x) for x in range(ord(body[k]), ord(body[k + 2]) + 1)); k += 3
+                    else:
+                        cs.add(body[k]); k += 1
+                i = j + 1
+            elif c in '(|){}.^$+*?':
+                raise ValueError('unsupported %r' % c)
+            else:
+                cs = {c}
+                i += 1
+            lo, hi = 1, 1
+            if i < len(src) and src[i] in '+*?':
+                lo, hi = {'+': (1, None), '*': (0, None), '?': (0, 1)}[src[i]]
+                i += 1
+            self.items.append((cs, lo, hi))
+
+    def _m(self, k, s, pos):
+        """set of end positions"""
+        if k == len(self.items):
+            return {pos}
+        cs, lo, hi = self.items[k]
+        ends = set()
+        n = 0
+        p = pos
+        while True:
+            if n >= lo:
+                ends |= self._m(k + 1, s, p)
+            if (hi is not None and n >= hi) or p >= len(s) or s[p] not in cs:
+                break
+            p += 1
+            n += 1
+        return ends
+
+    def full(self, s):
+        return len(s) in self._m(0, s, 0)
+
+    def search(self, s):
+        return any(self._m(0, s, i) for i in range(len(s) + 1))
+
+    def leftmost_longest(self, s):
+        for i in range(len(s) + 1):
+            e = self._m(0, s, i)
+            if e:
+                return i, max(e)
+        return None
+
+
+IDENT_SAMPLES = ['a', 'Z', '_', '_a', '_1', 'a_', 'a1', 'A9_b', '__', 'ws', '_ws', 'x_y_z0', 'CamelCase', 'snake_case_1']
+
+
+def _const_pattern(crate, fn, op):
+    r = trace(fn, op)
+    if r[0] == 'const':
+        b = const_bytes(r[1])
+        return b.decode('utf8', 'replace') if b is not None else None
+    fp = format_parts(fn, op)
+    if fp is None:
+        return None
+    pieces, args, _t = fp
+    out = ''
+    ai = 0
+    for pc in pieces:
+        if pc == 'ARG':
+            a = args[ai] if ai < len(args) else None
+            ai += 1
+            if a is None:
+                return None
+            ra = trace(fn, a)
+            b = const_bytes(ra[1]) if ra[0] == 'const' else None
+            if b is None:
+                ul = underlying_local(fn, a)
+                ds = fn.defs().get(ul, []) if ul is not None else []
+                if len(ds) == 1 and ds[0][0] == 'stmt' and ds[0][3]['rhs']['rv'] == 'use' and ds[0][3]['rhs']['a'].get('op') == 'const':
+                    b = const_bytes(ds[0][3]['rhs']['a'])
+            if b is None:
+                return None
+            out += b.decode('utf8', 'replace')
+        else:
+            out += pc
+    return out
+
+
+def rule_subpattern_names(rep, crate):
+    rid = rep.rule('M-C11d', 'names and references agree: of the two constant regexes of parser::subpattern, the one that validates a subpattern name and the one that recognises a reference (?&name) accept the same names, and every ASCII Rust identifier (first character letter or _, then letters, digits, _) is accepted by both, so a name that can be defined can be referenced', floor=2)
+    pats = {}
+    for name, fn in sorted(crate.fns.items()):
+        if not re.search(r'^parser::subpattern::[A-Za-z_0-9]+::\{closure#\d+\}$', name):
+            continue
+        for b, t in fn.calls():
+            if re.search(r'regex::Regex::new$', fn.callee_name(t)):
+                src = _const_pattern(crate, fn, t['args'][0])
+                pats[name] = (src, fn, t)
+    rep.inst(rid, 'subpattern-regexes', detail={short(k): v[0] for k, v in pats.items()})
+    if not rep.anchor(rid, 'two constant regexes in parser::subpattern', len(pats) == 2):
+        return
+    und = [k for k, v in pats.items() if v[0] is None]
+    if und:
+        k = und[0]
+        rep.viol(rid, 'subpattern-regex:unknown', 'the pattern of %s is not a constant (or a format!() of constants) that can be decoded: fail closed' % k, loc(pats[k][1]))
+        return
+    group = [k for k, v in pats.items() if v[0].startswith('\\(\\?\\&') or v[0].startswith('\\(\\?&')]
+    if len(group) != 1:
+        rep.viol(rid, 'subpattern-regex:roles', 'cannot tell the reference regex from the name regex (%s)' % [v[0] for v in pats.values()], '')
+        return
+    gk = group[0]
+    ik = [k for k in pats if k != gk][0]
+    try:
+        g = _MiniRe(pats[gk][0])
+        idr = _MiniRe(pats[ik][0])
+    except (ValueError, IndexError) as e:
+        rep.viol(rid, 'subpattern-regex:unsupported', 'a subpattern regex constant uses syntax outside the audited subset (%s): fail closed' % e, loc(pats[gk][1]))
+        return
+    for smp in IDENT_SAMPLES:
+        rep.inst(rid, 'ident:%s' % smp)
+        if not idr.search(smp):
+            rep.viol(rid, 'subpattern-regex:name-rejected:%s' % smp, 'the name regex %r rejects the identifier %r' % (pats[ik][0], smp), loc(pats[ik][1]))
+        ref = '(?&%s)' % smp
+        hay = 'x' + ref + '+y'
+        got = g.leftmost_longest(hay)
+        if got != (1, 1 + len(ref)):
+            rep.viol(rid, 'subpattern-regex:reference-missed:%s' % smp, 'the reference regex %r does not recognise %r (match %s in %r): a subpattern with this name can be defined but not referenced' % (pats[gk][0], ref, got, hay), loc(pats[gk][1]))
+    # and nothing that is not an identifier is recognised as a reference
+    for bad in ['(?&)', '(?&a-b)', '(?& a)', '(?&a b)']:
+        if g.search(bad):
+            rep.viol(rid, 'subpattern-regex:reference-spurious:%s' % bad, 'the reference regex %r matches inside %r' % (pats[gk][0], bad), loc(pats[gk][1]))
+
+
 # --------------------------------------------------------------------------------------------
 # positive controls on fixtures/mir-cg (a frozen copy of logos-codegen/src with seeded defects)
 # --------------------------------------------------------------------------------------------
